@@ -278,4 +278,62 @@ def code_lines_named(ctx, K, maxlen, prefix):
     return lines
 
 
-OBLIGATIONS = [C07a, C07b, C07d]
+from jedi.api.refactoring import extract as X  # noqa: E402
+
+
+class C07c(Obligation):
+    id = 'C07.c'
+    title = 'extract: the text in front of the replaced expression and of the statement is preserved byte for byte'
+    pattern = 'P1 (extract._replace over stand-in nodes with symbolic prefixes)'
+    assumptions = (
+        'the statement prefix is 1-2 split_lines-shaped lines of symbolic text (parso.split_lines is a stub returning '
+        'them), the prefix in front of the extracted expression likewise (comments, continuation lines);'
+        ' the extracted code and the replacement are fixed markers',
+    )
+
+    def configs(self, tier):
+        return [dict(same_leaf=s, n=n) for s in (False, True) for n in (1, 2)]
+
+    def scenario(self, ctx, cfg):
+        n = cfg['n']
+        plines = code_lines_named(ctx, n, 4, 'stmt_prefix')
+        stmt_prefix = _join(plines)
+        elines = code_lines_named(ctx, n, 4, 'expr_prefix')
+        expr_prefix = _join(elines)
+        table = {}
+
+        def split_lines(text, keepends=False):
+            for key, val in table.items():
+                if val[0] is text:
+                    return list(val[1])
+            raise AssertionError('unexpected split_lines argument')
+        ctx.patch(X, 'split_lines', split_lines)
+        table[0] = (stmt_prefix, plines)
+        table[1] = (expr_prefix, elines)
+        leafA = Obj(prefix=stmt_prefix, value='target')
+        if cfg['same_leaf']:
+            first_leaf = leafA
+        else:
+            first_leaf = Obj(prefix=expr_prefix, value='expr')
+        stmt = Obj(type='expr_stmt', parent=Obj(type='file_input'), get_first_leaf=lambda: leafA)
+        node0 = Obj(type='atom', parent=stmt, get_first_leaf=lambda: first_leaf)
+        ctx.force(X._replace)
+        out = ctx.call(X._replace, [node0], 'REPL', 'new = expr', (1, 0))
+        ctx.check(out.exc is None, 'never raises')
+        if out.exc is not None:
+            return
+        dct = out.value
+        inserted = plines[-1] + 'new = expr' + '\n'
+        kept_before = _join(plines[:-1])
+        if cfg['same_leaf']:
+            ctx.check(dct[node0] == kept_before + inserted + plines[-1] + 'REPL',
+                      'the new statement is inserted on its own line, everything before the statement is kept')
+        else:
+            ctx.check(dct[node0] == expr_prefix + 'REPL',
+                      'the complete text in front of the replaced expression (comments, line breaks) is kept')
+            ctx.check(dct[leafA] == kept_before + inserted + plines[-1] + 'target',
+                      'the new statement is inserted in front of the statement, its own prefix is kept')
+        ctx.check(len(dct) == (1 if cfg['same_leaf'] else 2), 'nothing else is rewritten')
+
+
+OBLIGATIONS = [C07a, C07b, C07c, C07d]
